@@ -48,7 +48,7 @@ pub fn parse_embedded_skin<R: Read + Seek>(reader: &mut R, m2_version: u32) -> R
     let header = OldSkinHeader::parse_embedded(reader)?;
 
     // Parse indices
-    let mut indices = Vec::with_capacity(header.indices.count as usize);
+    let mut indices = Vec::new(); // sized by what the input really holds, not by the declared count
     if header.indices.count > 0 && header.indices.offset > 0 {
         reader.seek(SeekFrom::Start(header.indices.offset as u64))?;
         for _ in 0..header.indices.count {
@@ -57,7 +57,7 @@ pub fn parse_embedded_skin<R: Read + Seek>(reader: &mut R, m2_version: u32) -> R
     }
 
     // Parse triangles
-    let mut triangles = Vec::with_capacity(header.triangles.count as usize);
+    let mut triangles = Vec::new(); // sized by what the input really holds, not by the declared count
     if header.triangles.count > 0 && header.triangles.offset > 0 {
         reader.seek(SeekFrom::Start(header.triangles.offset as u64))?;
         for _ in 0..header.triangles.count {
@@ -68,7 +68,7 @@ pub fn parse_embedded_skin<R: Read + Seek>(reader: &mut R, m2_version: u32) -> R
     // Parse bone indices
     // Note: count is number of vertices, each with 4 bone indices (ubyte4)
     let total_bone_bytes = (header.bone_indices.count as usize) * 4;
-    let mut bone_indices = Vec::with_capacity(total_bone_bytes);
+    let mut bone_indices = Vec::new(); // sized by what the input really holds, not by the declared count
     if header.bone_indices.count > 0 && header.bone_indices.offset > 0 {
         reader.seek(SeekFrom::Start(header.bone_indices.offset as u64))?;
         for _ in 0..total_bone_bytes {
@@ -77,7 +77,7 @@ pub fn parse_embedded_skin<R: Read + Seek>(reader: &mut R, m2_version: u32) -> R
     }
 
     // Parse submeshes
-    let mut submeshes = Vec::with_capacity(header.submeshes.count as usize);
+    let mut submeshes = Vec::new(); // sized by what the input really holds, not by the declared count
     if header.submeshes.count > 0 && header.submeshes.offset > 0 {
         reader.seek(SeekFrom::Start(header.submeshes.offset as u64))?;
         for _ in 0..header.submeshes.count {
@@ -86,7 +86,7 @@ pub fn parse_embedded_skin<R: Read + Seek>(reader: &mut R, m2_version: u32) -> R
     }
 
     // Parse batches
-    let mut batches = Vec::with_capacity(header.batches.count as usize);
+    let mut batches = Vec::new(); // sized by what the input really holds, not by the declared count
     if header.batches.count > 0 && header.batches.offset > 0 {
         reader.seek(SeekFrom::Start(header.batches.offset as u64))?;
         for _ in 0..header.batches.count {
@@ -746,7 +746,7 @@ where
         // Parse indices
         let header_indices = header.indices();
         reader.seek(SeekFrom::Start(header_indices.offset as u64))?;
-        let mut indices = Vec::with_capacity(header_indices.count as usize);
+        let mut indices = Vec::new(); // sized by what the input really holds, not by the declared count
         for _ in 0..header_indices.count {
             indices.push(reader.read_u16_le()?);
         }
@@ -754,7 +754,7 @@ where
         // Parse triangles
         let header_triangles = header.triangles();
         reader.seek(SeekFrom::Start(header_triangles.offset as u64))?;
-        let mut triangles = Vec::with_capacity(header_triangles.count as usize);
+        let mut triangles = Vec::new(); // sized by what the input really holds, not by the declared count
         for _ in 0..header_triangles.count {
             triangles.push(reader.read_u16_le()?);
         }
@@ -765,7 +765,7 @@ where
         let header_bone_indices = header.bone_indices();
         reader.seek(SeekFrom::Start(header_bone_indices.offset as u64))?;
         let total_bone_bytes = (header_bone_indices.count as usize) * 4;
-        let mut bone_indices = Vec::with_capacity(total_bone_bytes);
+        let mut bone_indices = Vec::new(); // sized by what the input really holds, not by the declared count
         for _ in 0..total_bone_bytes {
             bone_indices.push(reader.read_u8()?);
         }
@@ -773,7 +773,7 @@ where
         // Parse submeshes
         let header_submeshes = header.submeshes();
         reader.seek(SeekFrom::Start(header_submeshes.offset as u64))?;
-        let mut submeshes = Vec::with_capacity(header_submeshes.count as usize);
+        let mut submeshes = Vec::new(); // sized by what the input really holds, not by the declared count
         for _ in 0..header_submeshes.count {
             submeshes.push(SkinSubmesh::parse(reader)?);
         }
@@ -781,7 +781,7 @@ where
         // Parse batches
         let header_batches = header.batches();
         reader.seek(SeekFrom::Start(header_batches.offset as u64))?;
-        let mut batches = Vec::with_capacity(header_batches.count as usize);
+        let mut batches = Vec::new(); // sized by what the input really holds, not by the declared count
         for _ in 0..header_batches.count {
             batches.push(SkinBatch::parse(reader)?);
         }
